@@ -159,11 +159,18 @@ class NgapCanon(NgapRT):
 
 class C04(A.AperCheck):
     pid = "C04"
-    prop_files = []
+    prop_files = ["Properties/C04.v"]
     extra_targets = ["Model/AperCheck.vo", "Spec/X691Check.vo"]
     streams = [PrimDec(), NgapRT(), NgapCanon()]
-    trusted = []
-    assumptions = []
+    trusted = ["Coq 8.16.1 kernel incl. vm_compute (no native_compute); no axioms (Print Assumptions: closed under the global context)",
+               "hand-written models Model/AperEnc.v, Model/AperDec.v (marshal.go / aper.go) tied by the correspondence streams: implementation == model on every case, incl. error identity and panics",
+               "Go slices modelled with capacity == length (the harness hands exact-capacity slices to the codec)",
+               "reflect-based translator harness/gen_ngapschema.go (a copy of parseFieldParameters; root parameter strings read from ngap.go / build.go)",
+               "Spec/NgapGolden.v: frozen transcription of the TS 38.413 types in tag notation (cross-checked against an independent Python X.691 reference on ~24000 values in the design round)",
+               "Spec/X691.v written from ITU-T X.691 (08/2015), aligned variant, lengths below 16384, no extension additions",
+               "Python reference encoder in vlib/props/AperLib.py (only used to produce canonical encodings; checked equal to the Coq specification on every case)"]
+    assumptions = ["constraint-satisfying values, no fragmented lengths; equality up to nil/empty slice and the unused bits of a BIT STRING's last octet",
+                   "round-trip theorems are TODO-PARTIAL (Properties/C04.v); the streams establish them per case for every NGAP message type and the constraint space"]
 
     def regen(self, harness):
         ch = G.run_translator(harness, "gen-ngapschema", "NgapSchema.v")
